@@ -31,7 +31,7 @@ Definition dequeue_hand (u : user) : user :=
   | r :: q =>
       let prev := flags u in
       let new := apply_req r prev in
-      let retry := Nat.eqb (req_flag r) 0 in
+      let retry := req_marked r in
       if Nat.eqb new 0 then
         after_cancel (mkU (present u) new (st u) q (wpc u) None (deq u ++ [(prev, new, retry)]) (att u) (conf u)) prev
       else if Nat.eqb prev 0 || retry then
@@ -46,11 +46,11 @@ Lemma dequeue_eq : forall u, wpc u = PIdle -> dequeue u = dequeue_hand u.
 Proof.
   intros u P. unfold dequeue, dequeue_hand. destruct (queue u) as [|r q]; [reflexivity|].
   unfold is_retry_req, worker_decide, after_cancel, exit_check_hand, set_pc. cbn [present flags st queue wpc armed deq att conf]. rewrite P.
-  destruct (Nat.eqb (apply_req r (flags u)) 0); destruct (Nat.eqb (flags u) 0); destruct (Nat.eqb (req_flag r) 0); destruct q; reflexivity.
+  destruct (Nat.eqb (apply_req r (flags u)) 0); destruct (Nat.eqb (flags u) 0); destruct (req_marked r); destruct q; reflexivity.
 Qed.
 
 Lemma apply_req_0_r : forall r, req_flag r = 0 -> forall fl, apply_req r fl = fl.
-Proof. intros [f|f] E fl; cbn in E; subst; cbn; unfold apply_add, apply_rem; [apply Nat.lor_0_r|apply Nat.ldiff_0_r]. Qed.
+Proof. intros [f|f|] E fl; cbn in E; subst; cbn; unfold apply_add, apply_rem; [apply Nat.lor_0_r|apply Nat.ldiff_0_r|apply Nat.lor_0_r]. Qed.
 
 (* ------------------------------------------------------------------ sends mirror the processed changes *)
 Definition inv_sends (u : user) : Prop := att u = flat_map expected (deq u).
@@ -67,7 +67,7 @@ Proof.
       * unfold after_cancel, exit_check_hand, set_pc. cbn [present flags st queue wpc armed deq att conf].
         destruct (Nat.eqb fl 0) eqn:P0; [destruct q|]; cbn;
           rewrite flat_map_snoc, <- I; cbn; rewrite N, ?P0; rewrite ?app_nil_r; reflexivity.
-      * destruct (Nat.eqb fl 0 || Nat.eqb (req_flag r) 0) eqn:B; cbn;
+      * destruct (Nat.eqb fl 0 || req_marked r) eqn:B; cbn;
           rewrite flat_map_snoc, <- I; cbn; rewrite N, B; rewrite ?app_nil_r; reflexivity.
     + unfold finish_remove. rewrite exit_check_eq. unfold exit_check_hand, set_pc. cbn. destruct q; cbn; exact I.
   - destruct w; cbn [fst]; try exact I.
@@ -125,7 +125,7 @@ Definition good (R : nat) (u : user) : Prop :=
   (wpc u = PIdle -> present u = true /\
      (flags u = 0 -> st u = Untracked /\ queue u <> [] /\ conf u = false) /\
      (flags u <> 0 -> (st u = Tracked /\ conf u = true) \/
-                      (st u = RetryPending /\ conf u = false /\ (armed u <> None \/ In (RAdd 0) (queue u))))).
+                      (st u = RetryPending /\ conf u = false /\ (armed u <> None \/ In RRetry (queue u))))).
 
 Lemma queue_reasons_snoc : forall q fl r, queue_reasons (q ++ [r]) fl = apply_req r (queue_reasons q fl).
 Proof. intros. unfold queue_reasons. rewrite fold_left_app. reflexivity. Qed.
@@ -147,9 +147,9 @@ Proof. apply good_absent. Qed.
 
 Lemma idle_grow : forall (fl : nat) (s : tst) (cf : bool) (a : option Z) (q : list req) (r : req),
   ((fl = 0 -> s = Untracked /\ q <> [] /\ cf = false) /\
-   (fl <> 0 -> (s = Tracked /\ cf = true) \/ (s = RetryPending /\ cf = false /\ (a <> None \/ In (RAdd 0) q)))) ->
+   (fl <> 0 -> (s = Tracked /\ cf = true) \/ (s = RetryPending /\ cf = false /\ (a <> None \/ In RRetry q)))) ->
   ((fl = 0 -> s = Untracked /\ q ++ [r] <> [] /\ cf = false) /\
-   (fl <> 0 -> (s = Tracked /\ cf = true) \/ (s = RetryPending /\ cf = false /\ (a <> None \/ In (RAdd 0) (q ++ [r]))))).
+   (fl <> 0 -> (s = Tracked /\ cf = true) \/ (s = RetryPending /\ cf = false /\ (a <> None \/ In RRetry (q ++ [r]))))).
 Proof.
   intros fl s cf a q r (G2 & G3). split.
   - intros Z. destruct (G2 Z) as (A & B & C). repeat split; auto. destruct q; discriminate.
@@ -164,7 +164,7 @@ Proof.
   destruct p; cbn [fst]; unfold enqueue; cbn [present flags st queue wpc armed deq att conf].
   - assert (X : forall r, w = PIdle ->
       true = true /\ (fl = 0 -> s = Untracked /\ q ++ [r] <> [] /\ cf = false) /\
-      (fl <> 0 -> s = Tracked /\ cf = true \/ s = RetryPending /\ cf = false /\ (a <> None \/ In (RAdd 0) (q ++ [r])))).
+      (fl <> 0 -> s = Tracked /\ cf = true \/ s = RetryPending /\ cf = false /\ (a <> None \/ In RRetry (q ++ [r])))).
     { intros r E. destruct (GI E) as (G1 & G23). split; [auto|]. apply idle_grow. exact G23. }
     split.
     + gsplit; try (apply X); try assumption; try (intros; discriminate). rewrite queue_reasons_snoc. rewrite GR. reflexivity.
@@ -197,20 +197,20 @@ Proof.
     destruct q as [|r q]; [gsplit; triv|]. cbn in GR.
     destruct (Nat.eqb (apply_req r fl) 0) eqn:N.
     + apply eqb0 in N. rewrite N in *. unfold after_cancel. cbn [present flags st queue wpc armed deq att conf].
-      fold (exit_check_hand (mkU true 0 s q PIdle None (dq ++ [(fl, 0, Nat.eqb (req_flag r) 0)]) at_ cf)). rewrite <- exit_check_eq.
+      fold (exit_check_hand (mkU true 0 s q PIdle None (dq ++ [(fl, 0, req_marked r)]) at_ cf)). rewrite <- exit_check_eq.
       destruct (Nat.eqb fl 0) eqn:P0.
       * apply eqb0 in P0. destruct (G2 P0) as (A & B & C). subst s cf. apply good_exit. exact GR.
       * apply eqb0f in P0. gsplit; [exact GR|triv|triv|triv|triv|triv|triv].
     + apply eqb0f in N.
-      destruct (Nat.eqb fl 0 || Nat.eqb (req_flag r) 0) eqn:B.
+      destruct (Nat.eqb fl 0 || req_marked r) eqn:B.
       * gsplit; [exact GR|triv|triv|triv|triv| |triv].
         intros d E. destruct (GM d E) as (_ & D). auto.
-      * apply orb_false_iff in B. destruct B as (B1 & B2). apply eqb0f in B1. apply eqb0f in B2.
+      * apply orb_false_iff in B. destruct B as (B1 & B2). apply eqb0f in B1.
         gsplit; [exact GR|triv|triv|triv|triv| |].
         -- intros d E. destruct (GM d E) as (_ & D). auto.
         -- intros _. split; [reflexivity|]. split; [intros Z; contradiction|]. intros _.
            destruct (G3 B1) as [A|(A & C & [D|D])]; auto.
-           right. repeat split; auto. right. destruct D as [D|D]; auto. subst r. cbn in B2. contradiction.
+           right. repeat split; auto. right. destruct D as [D|D]; auto. subst r. cbn in B2. discriminate.
   - (* PSendRemove *)
     pose proof (GS eq_refl) as F0. subst fl. unfold finish_remove. cbn [fst].
     assert (P : p = true). { destruct p; auto. destruct (GA eq_refl) as (_ & _ & _ & _ & X). discriminate. }
